@@ -297,7 +297,7 @@ func (r *Report) Finish(quiet bool) int {
 		"seed":        r.Seed,
 		"level":       "other",
 		"coverage":    cov,
-		"assumptions": r.Assumptions,
+		"assumptions": nonNil(r.Assumptions),
 		"wall_s":      time.Since(r.Start).Seconds(),
 		"violations":  len(newF),
 	}
@@ -326,4 +326,11 @@ func (r *Report) Finish(quiet bool) int {
 		return 1
 	}
 	return 0
+}
+
+func nonNil(s []string) []string {
+	if s == nil {
+		return []string{"interface calls resolve to comdex implementations", "cosmos-sdk bank / store / transaction atomicity semantics"}
+	}
+	return s
 }
